@@ -364,7 +364,7 @@ def sample(case):
 
 
 THEOREM_FILES = ['P_C19']
-RULE = ('Gaussian-integer states of every sector of 2 orbitals; restricted integer Hamiltonians (ACSE residual) and random '
+RULE = ('three-orbital sectors (1,3), (3,1), (2,3), (3,2) [thorough: + (0,3), (3,0)] for the density matrices (every spin block of the 3-RDM populated); Gaussian-integer states of every sector of 2 orbitals; restricted integer Hamiltonians (ACSE residual) and random '
         'two-body spin-orbital tensors A (commutator contraction fed with the exact 2- and 3-RDMs); random antisymmetric '
         'anti-Hermitian generators (real for SVD, complex for Takagi) with and without cut-off. non-trivial: residual '
         'tensor with >= 2 distinct non-zero entries')
